@@ -236,6 +236,7 @@ def step (line : String) : String :=
     -- never issued: the input goroutine's `deliver` label of `USys` hands a reply to a requester only
     -- while a request is open and otherwise posts the sequence (C10Use.no_lost_event_all_actors); the
     -- control run (same input, no query) is the reference
+    if impl == "incomplete" then "-\t-\t-" else
     let ctl := (kv fi "ctl").getD "?"; let got := (kv fi "got").getD "?"
     let verdict :=
       if ctl == "?" || ctl == "-" || ctl == "error-new" then "FAIL lostkey: the control run delivered nothing"
